@@ -40,7 +40,7 @@ def main():
     os.makedirs("/tmp/sw", exist_ok=True)
     summary = []
     for pid in ids:
-        for m in ("m1", "m2"):
+        for m in os.environ.get("SEEDED_NAMES", "m1 m2").split():
             d = os.path.join(INC, pid)
             diff, demo, md = [os.path.join(d, m + x) for x in (".diff", "_demo.c", ".md")]
             if not os.path.exists(diff): continue
